@@ -264,12 +264,28 @@ func RunCopy(o *Out) {
 			}
 			// ... and the machine goes on exactly as it would have: same final
 			// state once the queue has drained (judged like a second snapshot)
-			final := snapMach(m, names)
+			// (a machine altered through the "copy" may also be wedged for good - the
+			// crash above can leave its locks held: the snapshot gets a deadline and
+			// a wedged machine is logged as such, which no untouched run equals)
+			var final MachSnap
+			fch := make(chan MachSnap, 1)
+			go func() { fch <- snapMach(m, names) }()
+			wedged := false
+			select {
+			case final = <-fch:
+			case <-time.After(5 * time.Second):
+				wedged = true
+				final = MachSnap{Names: append(am.S{}, names...), Active: am.S{"<machine wedged>"},
+					Time: []uint64{}, Clock: [][]any{}, Tags: []string{}, Queue: []QMut{}, Tracers: []string{}}
+			}
 			if cc.getter == "" {
 				refFinal = &final
 			} else if !cc.deep && cc.getter != "StateNames" && refFinal != nil {
 				o.EmitGroup(SnapLine{"snap", *refFinal},
 					MutRetLine{"mutret", cc.getter, cc.how + " (after the queue drained)", phase, cc.deep, final})
+			}
+			if wedged {
+				continue
 			}
 			m.Dispose()
 		}
